@@ -41,6 +41,9 @@ pub enum Act {
     InputChange(u8),
     /// the user adds the last configured peripheral to the running master (only with `late_add`)
     AddLate,
+    /// the user calls reset_address() on peripheral i (to the address it already has: "a new DP
+    /// parameterization will take place once the device responds") — also while a request is outstanding
+    ResetAddr(u8),
 }
 
 impl Act {
@@ -63,6 +66,7 @@ impl Act {
             "AddLate" => Act::AddLate,
             "Malformed" => Act::Malformed(num(s)[0]),
             "UserDiag" => Act::UserDiag(num(s)[0]),
+            "ResetAddr" => Act::ResetAddr(num(s)[0]),
             "UserWrite" => Act::UserWrite(num(s)[0], num(s)[1]),
             "InputChange" => Act::InputChange(num(s)[0]),
             o => panic!("unknown action {o}"),
@@ -523,7 +527,7 @@ impl Exec {
         }
         let n = self.cfg.rig.periphs.len() as u8;
         match a {
-            Act::UserDiag(i) | Act::UserWrite(i, _) => i < n && (i as usize) < self.rig.handles.len(),
+            Act::UserDiag(i) | Act::UserWrite(i, _) | Act::ResetAddr(i) => i < n && (i as usize) < self.rig.handles.len(),
             Act::AddLate => self.cfg.late_add && self.rig.handles.len() < self.cfg.rig.periphs.len(),
             Act::LongPause => true,
             Act::Answer if self.outstanding.is_none() => true, // "visit again"
@@ -540,6 +544,14 @@ impl Exec {
             self.log.push(format!("-- action {}", a.name()));
         }
         match a {
+            Act::ResetAddr(i) => {
+                let addr = self.cfg.rig.periphs[i as usize].addr;
+                let rig = &mut self.rig;
+                if let Err(pn) = catch(|| rig.periph(i as usize).reset_address(addr)) {
+                    self.panic_seen("Peripheral::reset_address", pn);
+                }
+                return;
+            }
             Act::UserDiag(i) => {
                 self.rig.periph(i as usize).request_diagnostics();
                 return;
